@@ -158,6 +158,8 @@ class Sim:
         self.stall_p = stall_p          # probability that a worker step is followed by a stall
         self.stall_max = 12.0
         self.ioerr_hook = None          # (tag, detail) -> True: this durable operation fails with ENOSPC
+        self.alloc_hook = None          # (tag, detail) -> True: this allocation fails (MemoryError)
+        self.commit_batch = None        # the write batch whose commit is the current / latest durable operation
         self.stall_boost = None         # (job tag suffix, probability[, substring of the submitting task's coroutine name])
         self.line_p = line_p            # line-granularity pre-emption probability (0 = off)
         self.loop_seam_p = loop_seam_p  # probability to run a worker step at a loop-thread seam
@@ -234,6 +236,14 @@ class Sim:
             self.log('IOERR', tag, self.dops)
             self.stats['io_error'] += 1
             raise OSError(28, 'No space left on device')
+
+    def alloc_point(self, tag, detail=None):
+        """Called where the storage seam allocates while a write batch is being assembled: a failing
+        allocation raises MemoryError out of the middle of the `with` block."""
+        if self.alloc_hook is not None and not self.dead and self.alloc_hook(tag, detail):
+            self.log('ALLOCFAIL', tag, detail[0] if isinstance(detail, tuple) else detail)
+            self.stats['alloc_fail'] += 1
+            raise MemoryError('simulated allocation failure')
 
     def crash_now(self, why='external'):
         self.log('CRASH', why)
